@@ -57,3 +57,27 @@ Definition ka_spec (b : tbucket) (now : N) : list (ident * N) :=
 (* bounds on a Vec of cached records *)
 Definition entry_ok (e : tentry) : Prop :=
   t_created (c_t e) < B63 /\ t_ttl (c_t e) < U32.
+
+(* ---- known answers over histories (C10 querier side) ---- *)
+
+(* the known-answer list the property prescribes for a question list, read off a cache: for
+   every question the shared records cached under the question's key that have not passed
+   half of their lifetime, each with its remaining TTL *)
+Definition question_key (q : bytes * N) : option ckey :=
+  match kind_of_type (snd q) with
+  | Some k => Some (k, if k =? 3 then lower (fst q) else fst q)
+  | None => None
+  end.
+
+Definition ka_of_spec (c : cache trec) (qs : list (bytes * N)) (now : N) : list (ident * N) :=
+  flat_map (fun q => match question_key q with
+                     | Some k => ka_spec (get_bucket trec c k) now
+                     | None => [] end) qs.
+
+(* the caches the model can be in between two loop iterations *)
+Inductive reach (cfg : simcfg) : cache trec -> Prop :=
+| reach_init : reach cfg []
+| reach_step : forall c s c' o,
+    reach cfg c -> step_ok s ->
+    sim_iter trec trec_ops cfg c (ss_now s) (ss_nsb s) (ss_nsh s) (ss_recs s) = Ok (c', o) ->
+    reach cfg c'.
